@@ -305,13 +305,18 @@ theorem eprobe9_rows_orthonormal (b dim : ℕ) (hd : 4 ≤ dim) (he : dim % 2 = 
 /-- non-vacuity / sharpness: for odd `dim` the wrap-around column collides and the rows are *not* orthonormal -/
 example : eprobe9RowsOK 1 5 = false ∧ eprobe9RowsOK 1 6 = true := by decide +kernel
 
-/-- the remaining (column / completeness) half of the full statement follows from the row half for `dim ≤ 12`; open beyond -/
-theorem eprobe9Unitary_iff_cols (b dim : ℕ) (hd : 4 ≤ dim) (he : dim % 2 = 0) :
-    eprobe9Unitary b dim = eprobe9ColsOK b dim := by
-  simp [eprobe9Unitary, eprobe9_rows_orthonormal b dim hd he]
+/-- **`eq9`, every even `dim ≥ 4`: each basis is complete** (`Σ_i B i c·conj(B i c') = 2 δ_cc'`, i.e. `Σ_i |b_i⟩⟨b_i| = 1`): rows `2k, 2k+1`
+contribute `2·[c = c' ∈ {P_k, Q_k}]` and the pairs `{P_k, Q_k}` partition the columns (for the odd bases the last pair wraps to column 0) -/
+theorem eprobe9_cols_orthonormal (b dim : ℕ) (hd : 4 ≤ dim) (he : dim % 2 = 0) : eprobe9ColsOK b dim = true :=
+  eprobe9ColsOK_all b dim hd he
 
-/-- full statement (every even `dim ≥ 4`); open — proved and tied for even `dim = 4, …, 12`, probed beyond -/
-def Eprobe9Unitary.Statement : Prop := ∀ b < 4, ∀ dim, 4 ≤ dim → dim % 2 = 0 → eprobe9Unitary b dim = true
+/-- **`get_element_probing_POVM('eq9', dim)`: each of the four bases is orthonormal and complete, every even `dim ≥ 4`** (the full
+statement; until round 9 it was the open `Eprobe9Unitary.Statement`, proved for `dim ≤ 12` only) -/
+theorem eprobe9_unitary : ∀ b < 4, ∀ dim, 4 ≤ dim → dim % 2 = 0 → eprobe9Unitary b dim = true := fun b _ dim hd he => by
+  simp [eprobe9Unitary, eprobe9_rows_orthonormal b dim hd he, eprobe9_cols_orthonormal b dim hd he]
+
+/-- sharpness of the evenness guard: for odd `dim` the bases are not unitary (the source asserts `dim % 2 == 0`) -/
+example : eprobe9Unitary 1 5 = false ∧ eprobe9Unitary 3 7 = false := by decide +kernel
 
 /-! ## closed-form values on the entangled branch, and the range guards of the model -/
 
